@@ -100,6 +100,14 @@ def text_corpus2(rng, n):
             eras.append(f'k{i}: {val}')
         out.append(('{' + ', '.join(ents) + '}', '{' + ', '.join(eras) + '}'))
         out.append(('\n'.join(ents) + '\n', '\n'.join(eras) + '\n'))
+        # keys that are also attribute names of the node / builder classes (the loader accepts them); float keys holding containers
+        names = rng.sample(['stages', 'builder', 'value', 'source', 'merge', 'node_info', 'children', 'name', 'path', 'default', 'delete', 'priority', 'safe', 'metadata', 'idx', 'tag'], 3)
+        vals = ['[{name: build, jobs: 4}, {name: test, jobs: 2}]', '{a: 1, b: [2]}', '3', '[1, 2]', '{name: x}']
+        body = [(nm, rng.choice(vals)) for nm in names] + [('0.5', '[warmup, 10]'), ('2.5', '{lr: 0.1, sub: {x: 1}}'), ('1.5', 'x')]
+        rng.shuffle(body)
+        t2 = rng.choice(tags)
+        out.append(('{' + ', '.join(f'{k}: {t2 + " " if rng.random() < 0.4 else ""}{v}' for k, v in body) + '}', '{' + ', '.join(f'{k}: {v}' for k, v in body) + '}'))
+        out.append((f'--- {t2}\n' + '\n'.join(f'{k}: {v}' for k, v in body) + '\n', '\n'.join(f'{k}: {v}' for k, v in body) + '\n'))
     return out
 
 
